@@ -1,5 +1,5 @@
 (* operations of the per-format layout models (NWChem electron section, ...) *)
-From BSE Require Import Model.Val Model.Basis Model.Nwchem Model.G94 Model.Turbomole Model.NwchemEcp Model.TurbomoleEcp Model.GamessUs Model.GamessUsEcp.
+From BSE Require Import Model.Val Model.Basis Model.Nwchem Model.G94 Model.Turbomole Model.NwchemEcp Model.TurbomoleEcp Model.GamessUs Model.GamessUsEcp Model.Libmol Model.Dalton Model.DaltonEcp.
 Definition dec_zshells (v : val) : res (list (Z * list sshell)) :=
   do l <- as_list v;
   mapM (fun x => match x with
@@ -44,6 +44,10 @@ Definition ops_formats (op : string) (args : list val) : option (res val) :=
   | "gus_read_electron", [ls] => Some (do l <- dec_strs ls; do r <- gus_read_electron l; ok (enc_zshells r))
   | "gus_write_all", [els; ecps] => Some (do e <- dec_zshells els; do c <- dec_zecps ecps; do t <- gus_write_all e c; ok (VStr t))
   | "gus_read_all", [ls] => Some (do l <- dec_strs ls; do r <- gus_read_all l; ok (VList (map (fun ze => VList [VInt (fst ze); enc_gus_el (snd ze)]) r)))
+  | "lmol_write_electron", [VStr harm; VStr name; els] => Some (do e <- dec_zshells els; do t <- lmol_write_electron harm name e; ok (VStr t))
+  | "lmol_read_electron", [ls] => Some (do l <- dec_strs ls; do r <- lmol_read_electron l; ok (enc_zshells r))
+  | "dal_write_all", [VStr name; els; ecps] => Some (do e <- dec_zshells els; do c <- dec_zecps ecps; do t <- dal_write_all name e c; ok (VStr t))
+  | "dal_read_all", [ls] => Some (do l <- dec_strs ls; do r <- dal_read_all l; ok (VList (map (fun ze => VList [VStr (fst ze); enc_nw_el (snd ze)]) r)))
   | "g94_write_electron", [els] => Some (do e <- dec_zshells els; do t <- g94_write_electron e; ok (VStr t))
   | "tm_write_electron", [VStr role; VStr name; els] => Some (do e <- dec_zshells els; do t <- tm_write_electron role name e; ok (VStr t))
   | "tm_read_electron", [ls] => Some (do l <- dec_strs ls; do r <- tm_read_electron l; ok (enc_zshells r))
